@@ -491,39 +491,37 @@ func (m Aff) Norm() float64 {
 	return d
 }
 
-// NearestParamMulti is NearestParam made safe for self-approaching curves: every discrete local
-// minimum of the sampled distance that could hide the global minimum is refined.
+// NearestParamMulti is NearestParam made safe for self-approaching curves, cusps and hairpin
+// turns: every sample interval that could hide the global minimum (one of its ends is within the
+// local arc scale of the best sampled distance) is refined separately.
 func NearestParamMulti(s Seg, q Pt, n int) (float64, float64) {
 	if !s.IsCurve() {
 		return NearestParam(s, q, n)
 	}
 	ds := make([]float64, n+1)
 	ps := make([]Pt, n+1)
-	best := math.Inf(1)
-	step := 0.0
+	best, bi := math.Inf(1), 0
 	for i := 0; i <= n; i++ {
 		ps[i] = SegAt(s, float64(i)/float64(n))
 		ds[i] = q.Dist(ps[i])
-		best = math.Min(best, ds[i])
-		if i > 0 {
-			step = math.Max(step, ps[i].Dist(ps[i-1]))
+		if ds[i] < best {
+			best, bi = ds[i], i
 		}
 	}
-	bt, bd := 0.0, math.Inf(1)
-	for i := 0; i <= n; i++ {
-		if ds[i] > best+step {
+	bt, bd := float64(bi)/float64(n), best
+	f := func(t float64) float64 { return q.Dist(SegAt(s, t)) }
+	chord := func(i int) float64 {
+		if i < 0 || i >= n {
+			return 0
+		}
+		return ps[i].Dist(ps[i+1])
+	}
+	for i := 0; i < n; i++ {
+		loc := chord(i-1) + chord(i) + chord(i+1)
+		if math.Min(ds[i], ds[i+1]) > best+loc {
 			continue
 		}
-		if (i > 0 && ds[i-1] < ds[i]) || (i < n && ds[i+1] < ds[i]) {
-			continue
-		}
-		lo := math.Max(0, float64(i-1)/float64(n))
-		hi := math.Min(1, float64(i+1)/float64(n))
-		t, d := goldenMin(func(t float64) float64 { return q.Dist(SegAt(s, t)) }, lo, hi)
-		if ds[i] < d {
-			t, d = float64(i)/float64(n), ds[i]
-		}
-		if d < bd {
+		if t, d := goldenMin(f, float64(i)/float64(n), float64(i+1)/float64(n)); d < bd {
 			bt, bd = t, d
 		}
 	}
